@@ -32,6 +32,9 @@ Letter(i) == 96 + i                               \* a, b, c ...
 Operand(f, i) == CASE f = "var" -> <<36, Letter(i)>>
                    [] f = "name" -> <<Letter(i)>>
                    [] f = "lit" -> IF (i % 2) = 1 THEN <<48 + i>> ELSE <<34, Letter(i), 34>>
+                   \* a unary minus in front of every operand: written tight (-5, -a) and with a space (- 5, - a)
+                   [] f = "neg" -> IF (i % 2) = 1 THEN <<45, 48 + i>> ELSE <<45, Letter(i)>>
+                   [] f = "negsp" -> IF (i % 2) = 1 THEN <<45, 32, 48 + i>> ELSE <<45, 32, 36, Letter(i)>>
 
 \* render a chain: sp = separator placed around every token (<<>> for tight, except around words)
 RECURSIVE Render(_, _, _, _, _)
@@ -85,7 +88,7 @@ Yield(n) == IF IsBin(n) THEN Yield(LeftOf(n)) \o <<OpOf(n)>> \o Yield(RightOf(n)
 RECURSIVE ChainYield(_, _)
 ChainYield(ch, i) == IF i > Len(ch) THEN <<>> ELSE <<ch[i], "x">> \o ChainYield(ch, i + 1)
 PrecedenceHolds ==
-    (done /\ (\A i \in 1..Len(chain) : chain[i] \in BinOps)) =>
+    (done /\ flav \notin {"neg", "negsp"} /\ (\A i \in 1..Len(chain) : chain[i] \in BinOps)) =>
         LET R == RawParse(Tight(flav, chain))
         IN  ~R.err => (WellShaped(R.node) /\ Yield(R.node) = <<"x">> \o ChainYield(chain, 1))
 =============================================================================
